@@ -75,7 +75,9 @@ def concept_case(out: Outcome, rng, cls: str, lines, expect) -> None:
                 out.violation(f"{cls}: history is not empty after reset()", rep)
                 return
             if t > 0 and (any(len(v) for v in cb.logs.values() if isinstance(v, list)) or (last_logs is not None and any(len(v) for v in last_logs["h"].values() if isinstance(v, list)))):
-                out.violation(f"{cls}: right after reset() the callback's logs (and the dictionary update() returned) still show the old history", rep)
+                # the HISTORY is empty (checked above) and the logs of the NEXT update are the new history (checked at that update); what `callback.logs`, or a dictionary handed
+                # out before the reset, shows in between is fixed by the model (logs and history are one object, cleared in place), not by a clause of the property
+                out.mismatch(f"{cls}: right after reset() the callback's logs (or the dictionary an earlier update() returned) still show the old history; in the model they are the history itself", rep)
                 return
         s1 = np.random.get_state()
         logs = with_cb.update(value=x)
